@@ -56,9 +56,15 @@ end Glom.C11
 namespace Glom.C11
 open Glom Glom.Mut
 
+/-- the heap events of a run: everything but (at most) the last event concerns cells created
+    during the call; the last one may be the write that attaches the result to a pre-existing cell -/
+def AttachLast (h : Heap) (log : List Ev) : Prop :=
+  ∃ evs tail, log = evs ++ tail ∧ (∀ ev ∈ evs, evNew h.length ev) ∧ (tail = [] ∨ ∃ a, tail = [.write a])
+
 /-- what the refinement says about one run of the model -/
 def Refines (h : Heap) (target : Val) (out : St × Except MErr Val) : RefRes → Prop
-  | .ok h' hid n => out.2 = .ok target ∧ out.1.heap = h' ∧ out.1.calls = n ∧ out.1.hidden = hid
+  | .ok h' hid n => out.2 = .ok target ∧ out.1.heap = h' ∧ out.1.calls = n ∧ out.1.hidden = hid ∧
+      AttachLast h out.1.log
   | .fail _ => (∃ e, out.2 = .error e) ∧ Pres h out.1.heap ∧ h.length ≤ out.1.heap.length
   | .unsupported => False
 
@@ -131,7 +137,11 @@ theorem assign_spec {env : MEnv} (hwf : WF env = true) (hc : classesOK env = tru
           | some r =>
             cases r with
             | error e => exact ⟨⟨_, rfl⟩, Pres.refl _, Nat.le_refl _⟩
-            | ok w => exact ⟨rfl, rfl, rfl, by simp [St.wrote]⟩
+            | ok w =>
+              refine ⟨rfl, rfl, rfl, by simp [St.wrote], [], _, (List.nil_append _).symm, by simp, ?_⟩
+              cases hcw : w.cell with
+              | none => left; simp [St.wrote, hcw]
+              | some a => right; exact ⟨a, by simp [St.wrote, hcw]⟩
         | fail k e stop =>
           rw [hmo] at hspec
           simp only at hspec
@@ -176,13 +186,13 @@ theorem assign_spec {env : MEnv} (hwf : WF env = true) (hc : classesOK env = tru
               cases hbt : buildTail env kind v (orig.drop (k + 1)) h with
               | none =>
                 rw [hbt] at hts
-                obtain ⟨st2, e', hrun, hp2, hl2⟩ := hts
+                obtain ⟨st2, e', hrun, hp2, hl2, _⟩ := hts
                 simp only [hrun]
                 exact ⟨⟨_, rfl⟩, hp2, hl2⟩
               | some res =>
                 obtain ⟨h1, c, hid, n⟩ := res
                 rw [hbt] at hts
-                obtain ⟨st2, hrun, hh2, hc2, hhid2, hp2, hl2⟩ := hts
+                obtain ⟨st2, hrun, hh2, hc2, hhid2, hp2, hl2, hlg2⟩ := hts
                 simp only [hrun]
                 -- re-fetch of the existing prefix in the extended heap
                 have hpre' : matchesOf env st2.heap (orig.take k) 0 (if sroot then sref else target) =
@@ -212,9 +222,14 @@ theorem assign_spec {env : MEnv} (hwf : WF env = true) (hc : classesOK env = tru
                   cases ra with
                   | error e' => exact ⟨⟨_, rfl⟩, by rw [hh2]; exact hp2, by rw [hh2]; exact hl2⟩
                   | ok w =>
-                    refine ⟨rfl, rfl, ?_, ?_⟩
+                    refine ⟨rfl, rfl, ?_, ?_, ?_⟩
                     · simp [St.wrote, hc2]
                     · simp [St.wrote, hhid2]
+                    · obtain ⟨evs, hev, hnew⟩ := hlg2
+                      simp only [List.nil_append] at hev
+                      cases hcw : w.cell with
+                      | none => exact ⟨evs, [], by simp [St.wrote, hcw, hev], hnew, .inl rfl⟩
+                      | some a => exact ⟨evs, [.write a], by simp [St.wrote, hcw, hev], hnew, .inr ⟨a, rfl⟩⟩
 
 end Glom.C11
 
